@@ -7,8 +7,7 @@
  * descriptor 3 reading the username, a 0 byte, the password, another 0 byte, an APOP
  * timestamp derived from hostname, and a final 0 byte.  qmail-popup then waits for
  * subprogram to finish.  It prints an error message if subprogram crashes or exits
- * nonzero."   RFC 1939 section 7: timestamp = <process-ID.clock@hostname>, the one shown
- * in the greeting.
+ * nonzero."   RFC 1939 section 7: the timestamp is the <...@hostname> shown in the greeting.
  * user (UL bytes) and pass (PL bytes): every byte value but NUL; lengths concrete per query. */
 #include "verif.h"
 #include <stdio.h>
@@ -21,8 +20,7 @@
 #ifndef PL
 #define PL 3
 #endif
-#define CHAL "<123.1000000000@h>"
-#define CHALLEN 18
+#define CHALMAX 40             /* room for the timestamp as shown in the greeting */
 
 unsigned char user[UL];
 unsigned char pass[PL];
@@ -33,7 +31,8 @@ int pipefail;
 static char ubuf[UL + 1], pbuf[PL + 1];
 static unsigned char rep[8]; static unsigned int replen, repflushed; static int greeted;
 static int closed3, piped, forked, closed_w, closed_r, waited;
-static unsigned char upb[UL + PL + CHALLEN + 8]; static unsigned int uplen, upflushed;
+static unsigned char chal[CHALMAX]; static unsigned int challen; static int inchal;   /* "<...>" captured from the greeting */
+static unsigned char upb[UL + PL + CHALMAX + 8]; static unsigned int uplen, upflushed;
 static char *argv_[4] = { "qmail-popup", "h", "checkpw", 0 };
 
 void sym_inputs(void)
@@ -57,7 +56,12 @@ int ideal_putc(substdio *s, unsigned char c)
     return 0;
   }
   CHECK(s == &ssout, "replies go to descriptor 1");
-  if (!greeted) return 0;
+  if (!greeted) {
+    if (c == '<') inchal = 1;
+    if (inchal) { CHECK(challen < CHALMAX, "timestamp fits (harness sizing)"); if (challen < CHALMAX) chal[challen++] = c; }
+    if (c == '>') inchal = 0;
+    return 0;
+  }
   if (replen < sizeof rep) rep[replen] = c;
   ++replen;
   return 0;
@@ -79,12 +83,13 @@ int vf_close(int fd)
     closed_w = 1;
     if (forkret == 0) return 0;                       /* child closes its copy of the write end */
     CHECK(upflushed == uplen, "C19(popup): credentials flushed before the pipe is closed");
-    CHECK(uplen == UL + 1 + PL + 1 + CHALLEN + 1, "C19(popup): descriptor 3 carries name NUL password NUL timestamp NUL, nothing else");
+    CHECK(uplen == UL + 1 + PL + 1 + challen + 1, "C19(popup): descriptor 3 carries name NUL password NUL timestamp NUL, nothing else");
+    if (uplen != UL + 1 + PL + 1 + challen + 1) return 0;
     for (k = 0; k < UL; ++k) { CHECK(upb[j] == user[k], "C19(popup): user name passed verbatim"); ++j; }
     CHECK(upb[j] == 0, "C19(popup): NUL after the name"); ++j;
     for (k = 0; k < PL; ++k) { CHECK(upb[j] == pass[k], "C19(popup): password / digest passed verbatim"); ++j; }
     CHECK(upb[j] == 0, "C19(popup): NUL after the password"); ++j;
-    for (k = 0; k < CHALLEN; ++k) { CHECK(upb[j] == (unsigned char) CHAL[k], "C19(popup): APOP timestamp <pid.time@hostname>"); ++j; }
+    for (k = 0; k < CHALMAX; ++k) { if (k >= challen) break; CHECK(upb[j] == chal[k], "C19(popup): the APOP timestamp is the one shown in the greeting"); ++j; }
     CHECK(upb[j] == 0, "C19(popup): NUL after the timestamp");
     return 0;
   }
@@ -159,8 +164,10 @@ void vmain(void)
   /* a wait status is either "exited with code c" (c << 8) or "killed by signal" (low 7 bits, + core flag) */
   ASSUME(wstat >= 0 && ((wstat & 0x7f) == 0 ? ((wstat & 0x80) == 0 && wstat <= 0xff00) : wstat <= 0xff));
   hostname = argv_[1]; childargs = argv_ + 2;
-  pop3_greet();                 /* the real code builds the timestamp */
+  pop3_greet();                 /* the real code builds the timestamp and shows it in the greeting */
   greeted = 1;
+  CHECK(challen >= 5 && chal[0] == '<' && chal[challen - 1] == '>' && chal[challen - 2] == 'h' && chal[challen - 3] == '@',
+        "RFC 1939: greeting carries a timestamp <...@hostname>");
   doanddie(ubuf, UL + 1, pbuf);
   CHECK(0, "doanddie does not return");
 }
